@@ -23,7 +23,7 @@ TECHNIQUE = ("runtime monitoring with fault injection: fork-and-kill enumeration
              "(os/builtins.open shim incl. partial write prefixes and HDF5 open/close) of sow/grow/reap, with naive-reap and "
              "documented-recovery oracles run from each crash state")
 RULE = ("victims sow / re-sow / grow(i) / Crop.grow(subset) / grow_missing / reap on raw, Runner, Harvester and Sampler crops "
-        "of 2-4 batches (defined by batchsize, or by a num_batches that does not divide the case count) with multi-chunk results; the process is killed before EVERY mutating event (mkdir, create/truncate, "
+        "(h5netcdf and joblib harvesters; TMPDIR on another file system where the machine has one; copies through sendfile modelled as chunked writes) of 2-4 batches (defined by batchsize, or by a num_batches that does not divide the case count) with multi-chunk results; the process is killed before EVERY mutating event (mkdir, create/truncate, "
         "each of up to three write prefixes per write, close, rename/replace, each unlink/rmdir of the clean-up, HDF5 "
         "create and close); for sow / re-sow kills the recovery is also run after already-queued workers grew the batches that exist; thorough adds a second kill during recovery on sampled first states; one (scenario, crash "
         "point) is one execution; all are non-trivial")
